@@ -6,8 +6,13 @@ import "testing"
 // encoders plus hostile constants) under several fragmentation plans. It is the quick-tier form of the
 // native fuzz targets (the same oracle functions are called by the Fuzz* targets).
 func TestSeeds(t *testing.T) {
+	run := func(name string, f func(t *testing.T)) {
+		if !t.Failed() { // after a failure (in particular a stalled call, which leaves a spinning goroutine behind) stop early
+			t.Run(name, f)
+		}
+	}
 	frags := []uint16{0, 0x0001, 0x1321, 0x9a62}
-	t.Run("socks5-addr", func(t *testing.T) {
+	run("socks5-addr", func(t *testing.T) {
 		for _, s := range hostileAddrs() {
 			for _, fr := range frags {
 				oracleSocks5Addr(t, fr, s)
@@ -15,7 +20,7 @@ func TestSeeds(t *testing.T) {
 			}
 		}
 	})
-	t.Run("socks5-server", func(t *testing.T) {
+	run("socks5-server", func(t *testing.T) {
 		sels, seeds := socks5ServerSeeds()
 		for i := range seeds {
 			for j, fr := range frags[:3] {
@@ -24,7 +29,7 @@ func TestSeeds(t *testing.T) {
 			}
 		}
 	})
-	t.Run("socks5-client", func(t *testing.T) {
+	run("socks5-client", func(t *testing.T) {
 		sels, seeds := socks5ClientSeeds()
 		for i := range seeds {
 			for j, fr := range frags {
@@ -32,7 +37,7 @@ func TestSeeds(t *testing.T) {
 			}
 		}
 	})
-	t.Run("http-server", func(t *testing.T) {
+	run("http-server", func(t *testing.T) {
 		sels, clients, origins := httpServerSeeds()
 		for i := range clients {
 			for _, fr := range frags[:3] {
@@ -41,7 +46,7 @@ func TestSeeds(t *testing.T) {
 			oracleHTTPServer(t, sels[i]|4, 0, clients[i], origins[i])
 		}
 	})
-	t.Run("http-client", func(t *testing.T) {
+	run("http-client", func(t *testing.T) {
 		sels, seeds := httpClientSeeds()
 		for i := range seeds {
 			for _, fr := range frags {
@@ -50,7 +55,7 @@ func TestSeeds(t *testing.T) {
 			}
 		}
 	})
-	t.Run("ssnone-server", func(t *testing.T) {
+	run("ssnone-server", func(t *testing.T) {
 		for _, s := range ssnoneSeeds() {
 			for _, fr := range frags {
 				oracleSSNone(t, fr, s)
@@ -58,7 +63,7 @@ func TestSeeds(t *testing.T) {
 			}
 		}
 	})
-	t.Run("ss2022-server", func(t *testing.T) {
+	run("ss2022-server", func(t *testing.T) {
 		sels, seeds := ssServerSeeds()
 		for i := range seeds {
 			for j, fr := range frags[:3] {
@@ -67,7 +72,7 @@ func TestSeeds(t *testing.T) {
 			oracleSS2022Server(t, sels[i], uint8(i)|4|8|16, 0x8001, seeds[i])
 		}
 	})
-	t.Run("ss2022-client", func(t *testing.T) {
+	run("ss2022-client", func(t *testing.T) {
 		sels, seeds := ssClientSeeds()
 		for i := range seeds {
 			for m := uint8(0); m < 8; m++ {
@@ -75,19 +80,19 @@ func TestSeeds(t *testing.T) {
 			}
 		}
 	})
-	t.Run("ss2022-udp-server", func(t *testing.T) {
+	run("ss2022-udp-server", func(t *testing.T) {
 		sels, seeds := ssUDPServerSeeds()
 		for i := range seeds {
 			oracleSS2022UDPServer(t, sels[i], seeds[i])
 		}
 	})
-	t.Run("ss2022-udp-client", func(t *testing.T) {
+	run("ss2022-udp-client", func(t *testing.T) {
 		sels, seeds := ssUDPClientSeeds()
 		for i := range seeds {
 			oracleSS2022UDPClient(t, sels[i], seeds[i])
 		}
 	})
-	t.Run("packet-unpackers", func(t *testing.T) {
+	run("packet-unpackers", func(t *testing.T) {
 		sels, seeds := packetSeeds()
 		for i := range seeds {
 			for _, hi := range []uint8{0, 8, 16, 24} {
@@ -95,7 +100,7 @@ func TestSeeds(t *testing.T) {
 			}
 		}
 	})
-	t.Run("dns-response", func(t *testing.T) {
+	run("dns-response", func(t *testing.T) {
 		sels, names, firsts, seconds := dnsSeeds()
 		for i := range sels {
 			for _, fr := range frags[:3] {
@@ -103,13 +108,13 @@ func TestSeeds(t *testing.T) {
 			}
 		}
 	})
-	t.Run("client-relay", func(t *testing.T) {
+	run("client-relay", func(t *testing.T) {
 		sels, modes, replies, tunnels := clientRelaySeeds()
 		for i := range sels {
 			oracleClientRelay(t, sels[i], modes[i], replies[i], tunnels[i])
 		}
 	})
-	t.Run("parsers", func(t *testing.T) {
+	run("parsers", func(t *testing.T) {
 		for _, s := range parseAddrSeeds() {
 			oracleParseAddr(t, s)
 		}
